@@ -401,6 +401,77 @@ def r5_lock_held(chk, prog):
     chk.require(n >= 2, 'files::Handler<P, L>::message() instantiations: %d' % n)
 
 
+def r6_generation_names(chk, prog, rule='R6'):
+    """every generation has its own file name: the roll-over renames generation n to n + 1 by NAME, so two
+    generation numbers that are rendered to the same text make one generation overwrite another.
+    filename::Builder::filename() hands the generation number it is given to formatNumber() for the number part, and
+    formatNumber() appends the complete decimal rendering of that number: the number is streamed once, on every
+    path, and the text taken from the stream reaches the destination as it is (padding to a fixed width may add
+    characters in front, nothing removes, cuts or rewrites characters)"""
+    B = 'celma::log::filename::Builder'
+    f = prog.one(B, 'filename', pred=lambda g: len(g.params) == 3 and 'basic_string' in g.params[0]['t'])
+    gen = f.params[1]['name']
+    calls = [c for c in f.calls() if callee_is(c, 'Builder::formatNumber')]
+    chk.require(calls, 'Builder::filename: formatNumber() not called')
+    with_gen = [c for c in calls if any(mentions_var(a, gen) for a in call_args(c))]
+    ok = len(with_gen) == 1
+    if ok:
+        a = call_args(with_gen[0])
+        ok = len(a) >= 3 and strip_all_casts(a[2]).get('k') == 'DeclRefExpr' and \
+            strip_all_casts(a[2])['ref'].get('name') == gen
+        # under the label of the number part
+        case = [x for x in f.walk() if x.get('k') == 'CaseStmt' and any(with_gen[0] is y for y in walk(x))]
+        ok = ok and any((x.get('enumerator') or '').endswith('::number') for x in case)
+    chk.check(ok, rule, f.name, 'the number part of the file name is the generation number, unmodified', f.loc())
+    g = prog.one(B, 'formatNumber')
+    num = g.params[2]['name']
+    dest = g.params[0]['name']
+    streams = [c for c in g.calls() if c.get('k') == 'CXXOperatorCallExpr' and c.get('op') == '<<' and
+               strip_all_casts(call_args(c)[1]).get('k') == 'DeclRefExpr' and
+               strip_all_casts(call_args(c)[1])['ref'].get('name') == num]
+    once = len(streams) == 1 and not g.cfg.must_pass_through(lambda n: n in streams)
+    chk.check(once, rule, g.name, 'the number is rendered completely (streamed once, on every path)', g.loc())
+    apps = [c for c in g.calls() if c.get('k') == 'CXXMemberCallExpr' and
+            (c.get('callee') or '').split('::')[-1] in ('append', 'operator+=', 'push_back', 'insert') and
+            mentions_var(object_of(c), dest)]
+    apps += [c for c in g.calls() if c.get('k') == 'CXXOperatorCallExpr' and c.get('op') == '+=' and
+             mentions_var(call_args(c)[0], dest)]
+    MUTATING = ('erase', 'resize', 'substr', 'pop_back', 'assign', 'replace', 'clear', 'operator=', 'operator[]', 'at',
+                'front', 'back', 'insert', 'remove_prefix', 'data')
+    ok = len(apps) == 1 and not g.cfg.must_pass_through(lambda n: n in apps)
+    detail = 'the destination is appended to %d time(s)' % len(apps)
+    if ok:
+        a = strip_all_casts(call_args(apps[0])[0] if apps[0].get('k') == 'CXXMemberCallExpr' else call_args(apps[0])[1])
+        while a.get('k') in ('MaterializeTemporaryExpr', 'CXXBindTemporaryExpr', 'CXXConstructExpr', 'ExprWithCleanups') \
+                and len(children(a)) == 1:
+            a = strip_all_casts(children(a)[0])
+        if a.get('k') == 'CXXMemberCallExpr' and (a.get('callee') or '').endswith('::str'):
+            pass
+        elif a.get('k') == 'DeclRefExpr' and a['ref'].get('sto') == 'local':
+            did = a['ref'].get('did')
+            uses = []
+            for x in g.walk():
+                if x.get('k') == 'DeclRefExpr' and x['ref'].get('did') == did and x is not a:
+                    p_ = g.parent(x)
+                    while p_ is not None and p_.get('k') in ('ImplicitCastExpr', 'MemberExpr', 'ParenExpr'):
+                        p_ = g.parent(p_)
+                    nm = (p_.get('callee') or '').split('::')[-1] if p_ is not None and p_.get('k') in CALL_KINDS else \
+                        (p_ or {}).get('k')
+                    uses.append(nm)
+            bad = [u for u in uses if u in MUTATING or u in ('CXXOperatorCallExpr',)]
+            init = [d.get('init') for ds in g.walk() if ds.get('k') == 'DeclStmt' for d in ds.get('decls', [])
+                    if d.get('did') == did]
+            from_stream = bool(init) and isinstance(init[0], dict) and any(
+                y.get('k') == 'CXXMemberCallExpr' and (y.get('callee') or '').endswith('::str') for y in walk(init[0]))
+            ok = from_stream and not bad
+            detail = 'the rendered text is changed before it is appended (%s)' % sorted(set(bad)) if bad else \
+                'the appended text is not the content of the stream'
+        else:
+            ok = False
+            detail = 'the appended text is not the content of the stream'
+    chk.check(ok, rule, g.name, 'the rendered number reaches the file name as it is (nothing is cut off)', g.loc(), detail)
+
+
 def run(chk):
     units = units_matching('library/log/files/', 'library/common/file_operations.cpp') + [
         os.path.join(VERIF, 'drivers', 'log_files.cpp')]
@@ -425,3 +496,7 @@ def run(chk):
     r4(chk, prog)
     chk.rule('R5', 'the file handler holds its lock around check, roll-over, write and accounting', 2)
     r5_lock_held(chk, prog)
+    chk.rule('R6', 'every generation number has its own file name (the number is rendered completely)', 3)
+    prog6 = load_program(units_matching('library/log/filename/builder.cpp'))
+    chk.units = list(chk.units) + units_matching('library/log/filename/builder.cpp')
+    r6_generation_names(chk, prog6)
